@@ -51,7 +51,7 @@ func H_Conc() {
 	w.Order = [kit.NS]int{0, 1, 2, 3}
 	// registration 0 (disposable S0) takes registrations 1 and 2 as parameters, so
 	// that a user callback runs between the resolution of its two arguments
-	v0 := []int{2, 22, 30}[vrt.Pick("var0", 0, 2)] // S0(S1, S2), S0(Scope, S1) or S0(In{S1; S2})
+	v0 := []int{2, 22, 30}[vrt.Pick("var0", 0, vrt.Param("vars", 3)-1)] // S0(S1, S2), S0(Scope, S1) or S0(In{S1; S2})
 	w.Regs[0] = kit.Reg{Present: true, Life: l0, Form: kit.IdPlain, Variant: v0}
 	w.Regs[1] = kit.Reg{Present: true, Life: l1, Form: kit.IdPlain, Variant: 0}
 	w.Regs[2] = kit.Reg{Present: true, Life: l2, Form: kit.IdPlain, Variant: 0}
@@ -172,9 +172,13 @@ func H_Conc() {
 		}
 	}
 	vrt.RaceDetect(vrt.Param("race", 0) == 1)
+	// G2: up to `g2` involuntary context switches, each in front of any lock
+	// acquisition / atomic / sync.Map operation of the container's own code
+	vrt.G2(vrt.Param("g2", 0))
 	vrt.Go("A", func() { run(0) })
 	vrt.Go("B", func() { run(1) })
 	vrt.WaitAll()
+	vrt.G2(0)
 	vrt.Quiesce()
 	vrt.Cover("both_done")
 
@@ -193,6 +197,10 @@ func H_Conc() {
 			}
 			if r.panicked {
 				continue
+			}
+			if closing && r.err != nil && r.op != opCloseShared && r.op != opCloseProvider && r.op != opCloseChild {
+				// C13: an operation that overlaps a Close completes normally or reports the disposed error
+				vrt.Assert(isDisposed(r.err), "C13.overlap_wrong_error", "operation", r.op, "overlapping a Close / cancellation returned", r.err)
 			}
 			switch r.op {
 			case opCloseShared, opCloseProvider, opCloseChild:
